@@ -289,6 +289,20 @@ fn language_history(sink: &mut Sink, scratch: &str, bin: &str, variant: usize) {
         6 => vec![all(l(&[("Mine", "\"#\"")])), Step { langs: l(&[("Mine", "\";\"")]), target: "mail", cwd: "", edit: None }, Step { langs: l(&[("Mine", "\";\"")]), target: "src", cwd: "", edit: None }, all(l(&[("Mine", "\";\"")]))],
         // the same project entered from its sub-directories (the configuration is discovered upwards)
         7 => vec![all(l(&[("Mine", "\"#\"")])), Step { langs: l(&[("Mine", "\"#\"")]), target: ".", cwd: "src", edit: None }, Step { langs: l(&[("Mine", "\"#\"")]), target: ".", cwd: "src/sub", edit: None }, all(l(&[("Mine", "\"#\"")]))],
+        // a user-defined language that takes a built-in extension over (`.rs` with `#` comments),
+        // is dropped again (the built-in syntax is back), returns under another name
+        10 => vec![
+            all("[languages.Hash]\nextensions = [\"rs\"]\nsingle_line_comments = [\"#\"]\n"),
+            all(l(&[("Mine", "\"#\"")])),
+            all("[languages.Other]\nextensions = [\"rs\", \"mine\"]\nsingle_line_comments = [\";\"]\n"),
+            Step { langs: "", target: ".", cwd: "", edit: Some(("src/b.rs", "// aaaaaaa\n// bbbbbbb\n// ccccccc\n")) },
+        ],
+        11 => vec![
+            all(""),
+            all("[languages.Hash]\nextensions = [\"rs\"]\nsingle_line_comments = [\"#\"]\n"),
+            Step { langs: "", target: "src", cwd: "", edit: None },
+            all(""),
+        ],
         // a source file reached through a symbolic link and named explicitly; its target is edited
         9 => vec![
             Step { langs: l(&[("Mine", "\"#\"")]), target: "--files link.rs", cwd: "", edit: None },
@@ -406,7 +420,7 @@ pub fn run(tier: Tier, seed: u64, out: &str) {
         for sc in &scripts {
             history(&mut sink, &mut r, &scratch, &bin, true, Some(sc));
         }
-        for v in 0..10 {
+        for v in 0..12 {
             language_history(&mut sink, &scratch, &bin, v);
         }
         for i in 0..tier.scale(250, 10_000) {
